@@ -12,6 +12,7 @@
 
 mod alloc;
 mod core;
+mod fresh;
 mod props;
 mod rng;
 mod runner;
@@ -312,6 +313,30 @@ fn cmd_child_check(args: &[String]) -> i32 {
             continue;
         }
         let known_fn = |w: &str, v: &Violation| match_known(&known, w, v).map(|k| k.id.clone());
+        // The first use of the library by this process happens outside any arena: whatever the code under test
+        // initialises lazily for the whole process (a `static` table, a `OnceLock`) must not live in memory that is
+        // emptied when a run ends. One ordinary run of this world, served by the system allocator, result ignored
+        // (the batch below repeats it inside an arena).
+        for i in 0..64 {
+            let s0 = runner::run_seed_of(seed, world.name(), &prop, i);
+            let mut plan = world.generate(s0, &prop, thorough);
+            if plan.get_or("arena", 1) != 1 || plan.ops.len() > 400 {
+                continue;
+            }
+            plan.cfg.insert("arena".into(), 0);
+            if let Some(inf) = inflight {
+                inf.publish(0, world.name(), s0);
+            }
+            let _ = execute_plan_with(world, &plan, false, &|| {
+                if let Some(inf) = inflight {
+                    inf.running_on_this_thread(0);
+                }
+            });
+            if let Some(inf) = inflight {
+                inf.clear(0);
+            }
+            break;
+        }
         let res = run_batch(&BatchSpec {
             world,
             target: &prop,
@@ -615,7 +640,7 @@ fn hashes_of(world: &dyn World, target: &str, runs: u64, nthreads: usize, thorou
     std::thread::scope(|sc| {
         for _ in 0..nthreads {
             std::thread::Builder::new()
-                .stack_size(256 << 20)
+                .stack_size(16 << 20)
                 .spawn_scoped(sc, || {
                     runner::warm_up();
                     let mut local = Vec::new();
